@@ -59,7 +59,7 @@ func (m *Machine) bigStore(recv Value, b BigV) {
 func (m *Machine) byteSliceConst(s SliceV) ([]byte, bool) {
 	out := make([]byte, s.len)
 	for i := 0; i < s.len; i++ {
-		k, ok := concreteBig(m.load(Ptr{obj: s.arr, path: []PathElem{{k: s.off + i}}}))
+		k, ok := concreteBig(m.load(elemPtr(s, i)))
 		if !ok {
 			return nil, false
 		}
@@ -132,7 +132,7 @@ func (m *Machine) bigStub(fn *ssa.Function, args []Value) (Value, bool) {
 			}
 			out := b.c.FillBytes(make([]byte, buf.len))
 			for i, x := range out {
-				m.store(Ptr{obj: buf.arr, path: []PathElem{{k: buf.off + i}}}, m.constInt(big.NewInt(int64(x)), types.Typ[types.Uint8]))
+				m.store(elemPtr(buf, i), m.constInt(big.NewInt(int64(x)), types.Typ[types.Uint8]))
 			}
 			return buf, true
 		}
@@ -143,7 +143,7 @@ func (m *Machine) bigStub(fn *ssa.Function, args []Value) (Value, bool) {
 			rest := b.lin
 			for i := buf.len - 1; i >= 0; i-- {
 				q, r := m.divmod(rest, big.NewInt(256))
-				m.store(Ptr{obj: buf.arr, path: []PathElem{{k: buf.off + i}}}, VInt{lin: r})
+				m.store(elemPtr(buf, i), VInt{lin: r})
 				rest = q
 			}
 			return buf, true
@@ -156,7 +156,7 @@ func (m *Machine) bigStub(fn *ssa.Function, args []Value) (Value, bool) {
 		if m.intMode {
 			v := linConstI(0)
 			for i := 0; i < src.len; i++ {
-				e := m.load(Ptr{obj: src.arr, path: []PathElem{{k: src.off + i}}}).(VInt).lin
+				e := m.load(elemPtr(src, i)).(VInt).lin
 				v = v.add(e.scale(new(big.Int).Lsh(big.NewInt(1), uint(8*(src.len-1-i)))), 1)
 			}
 			return ret(BigV{lin: v})
